@@ -591,6 +591,26 @@ func sv(s string) VS { return VS{T: "s", V: hx([]byte(s))} }
 // exponent forms: k8s resource.ParseQuantity computes 10^|exponent| exactly (seconds at 10^7, "forever" at 10^9)
 var expBombs = []string{"1e-999999999", "1e999999999", "1E1000000000000", "1e-10000000", "9e99999999Ki", "1e+2147483648", "1e-2147483649", "0e999999999", "1.5E-999999999", "1e1001", "1e-1001", "1e1000", "1e-1000", "5E", "5Ei", "5e", "5e+", "1e٣"}
 
+// every exponent bomb with the affixes a configuration value may carry: surrounding blanks, tabs, newlines,
+// NBSP, CR, signs, upper/lower-case exponent marker, SI / binary suffixes
+func expBombVariants() []string {
+	out := []string{}
+	cores := []string{"1e-999999999", "1e999999999", "1E-999999999", "1E+999999999", "2.5e-999999999", "1e-10000000"}
+	pre := []string{"", " ", "\t", "\n", "\u00a0", "+", "-", "\r\n", "  "}
+	post := []string{"", " ", "\n", "\t", "\r\n", "\u00a0", "\n\n", " \n", "Ki", "m", "k", "M", "Ei", " Ki", "\x00", ","}
+	for _, c := range cores {
+		for _, a := range pre {
+			for _, b := range post {
+				if a == "" && b == "" {
+					continue
+				}
+				out = append(out, a+c+b)
+			}
+		}
+	}
+	return out
+}
+
 var metaStrings = append(expBombs, "", "1", "-1", "0", "true", "false", "yes", "y", "1s", "5m", "1h30m", "-5s", "1.5h", "300", "9223372036854775807", "9223372036854775808", "-9223372036854775808", "9223372037", "1e3", "abc", " 1s ", "1s,2s", "1s, 2m ,,3", ",", ",,", "a,b,c", "1Ki", "10Mi", "1G", "1.5Gi", "-1", "1e30", "9223372036854775807Ei", "1KiB", "0x10", "١", "\x00", "\xff\xfe", "1 ", "+1", "1_000", "NaN", "Inf", "2024-01-01T00:00:00Z", "2024-01-01T00:00:00.123456789+01:00", "P1D", "1ns", "1µs", "1us", strings.Repeat("9", 400), strings.Repeat("1s,", 300))
 
 func genMeta(r *runner) {
@@ -800,6 +820,16 @@ func genMeta(r *runner) {
 	}
 	for _, s := range metaStrings {
 		r.do(mk("metadata-bytesize", "data", hx([]byte(s))))
+	}
+	for _, s := range expBombVariants() { // every way ParseQuantity is reached
+		r.do(mk("metadata-bytesize", "data", hx([]byte(s))))
+		for _, k := range []string{"size", "sizep"} {
+			r.do(mk("metadata-decodemetadata", "in", js(VS{T: "ms", K: []VS{sv(k)}, L: []VS{sv(s)}}), "target", "meta"))
+			r.do(mk("metadata-decodemetadata", "in", js(VS{T: "m", K: []VS{sv(k)}, L: []VS{sv(s)}}), "target", "meta"))
+		}
+		for _, ht := range []string{"byteSize", "byteSizePtr"} {
+			r.doM(hookLine(ht, s), mk("metadata-hookfield", "t", ht, "v", hx([]byte(s))))
+		}
 	}
 	for i := 0; i < r.n(3000); i++ {
 		r.do(mk("metadata-bytesize", "data", hx(mutate(r.rnd, []byte("1.5Gi"), []byte("0123456789.eE+-KMGTPEimunk \x00")))))
